@@ -23,7 +23,7 @@ RULE = ('histories of 3-14 operations (register on one of 3 lines with distingui
         'location, or a service update while registrations are live; distinct by canonical history')
 ASSUMPTIONS = ['listener updates are applied synchronously (a synchronous task handler is set through the public '
                'set_task_handler), so each comparison happens at quiescence; asynchrony is C12']
-REQUIRE = {'operations_checked': 4000, 'unregister_shared_location': 300, 'double_unregister': 200,
+REQUIRE = {'operations_checked': 4000, 'unregister_shared_location': 200, 'double_unregister': 200,
            'service_updates': 300}
 
 HOST = '''"""c13 probe"""
